@@ -23,6 +23,21 @@ def make(cls, rnd):
             if s is not None:
                 return s, "plain", None
         return None
+    if cls == "double-flatten":
+        for _ in range(60):
+            b, info = GE.gen_plain(rnd, products_only=True, allow_take=False, max_ranks=4)
+            s = GM.add_double_flatten(rnd, b, info)
+            if s is not None:
+                return s, "plain", None
+        return None
+    if cls == "occupancy2":
+        # several occupancy-partitioned ranks, two levels each
+        for _ in range(40):
+            b, info = GE.gen_plain(rnd, products_only=True, allow_take=False, max_ranks=3)
+            s = GM.add_occupancy(rnd, b, info, force="two-level")
+            if s is not None and len((s.partitioning or {}).get("Z", {})) >= 2:
+                return s, "plain", None
+        return None
     if cls == "affine":
         s, ext, info = GA.gen_affine(rnd)
         return s, "plain", ext
